@@ -751,6 +751,12 @@ def r7(ck, F, rid="C07.R7"):
                     first = [show(cc[0]) for q in PathEval(cb).run() if q.end == "return" and show(q.ret) != "0" for cc in q.conds if cc[1] != 0]
                     if ofs and all(o.endswith("NoneLayerMarker") for o in ofs) and first and all(x.startswith("is_none(downcast_raw(arg2, arg1.") for x in first):
                         rets = {"is_none(downcast_raw(arg2, arg1.id)) [and not a none-layer]"}
+                # the same predicate negated, for `!all(..)`: filtered OR an absent layer
+                if cb and rets == {"1", "is_some(downcast_raw(arg2, of()))"}:
+                    ofs = [tt["callee"].get("targs", [""])[0] for _, tt in cb.calls() if tt["callee"].get("path") == "core::any::TypeId::of"]
+                    first = [show(cc[0]) for q in PathEval(cb).run() if q.end == "return" and show(q.ret) != "1" for cc in q.conds if cc[1] == 0]
+                    if ofs and all(o.endswith("NoneLayerMarker") for o in ofs) and first and all(x.startswith("is_some(downcast_raw(arg2, arg1.") for x in first):
+                        rets = {"is_some(downcast_raw(arg2, arg1.id)) [or a none-layer]"}
                 quant = (t[1].rsplit("::", 1)[-1], sorted(rets), c[1] != 0)
         rows.append((quant, show(p.ret)))
     ok = bool(rows)
@@ -777,7 +783,7 @@ def r7(ck, F, rid="C07.R7"):
             continue
         if unfiltered_exists and not ret.startswith("Option::None"):
             ok, why = False, "with an unfiltered element the marker is answered %s instead of None" % ret[:60]
-        if pred and "[and not a none-layer]" not in pred[0]:
+        if pred and "[and not a none-layer]" not in pred[0] and "[or a none-layer]" not in pred[0]:
             ok, why = False, ("an Option::None (or empty) element counts as an unfiltered layer: a Vec of filtered layers and a None is not recognised as "
                               "per-layer-filtered, and the enclosing Layered publishes the filters' hint for the whole stack")
     if ok:
